@@ -68,6 +68,44 @@ BTOR_OPT_INCREMENTAL = _btor_opts.BTOR_OPT_INCREMENTAL
 BTOR_OPT_MODEL_GEN = _btor_opts.BTOR_OPT_MODEL_GEN
 
 
+class OutsideFieldVisitor(ModelVisitor):
+    """Marks fields that the constraints of a call reference, but that are
+    not among the fields being randomized, as non-random for the call"""
+
+    def __init__(self):
+        super().__init__()
+        self.phase = 0
+        self.in_call = set()
+
+    def mark(self, field_model_l, constraint_l):
+        for self.phase in (0, 1):
+            for f in field_model_l:
+                f.accept(self)
+            for c in constraint_l:
+                c.accept(self)
+
+    def visit_scalar_field(self, f):
+        if self.phase == 0:
+            self.in_call.add(f)
+
+    def visit_enum_field(self, f):
+        if self.phase == 0:
+            self.in_call.add(f)
+
+    def visit_field_bool(self, f):
+        if self.phase == 0:
+            self.in_call.add(f)
+
+    def visit_composite_field(self, f):
+        if self.phase == 0:
+            self.in_call.add(f)
+        super().visit_composite_field(f)
+
+    def visit_expr_fieldref(self, e):
+        if self.phase == 1 and e.fm not in self.in_call:
+            e.fm.set_used_rand(False)
+
+
 class ArrayTrimVisitor(ModelVisitor):
     """Trims random-size lists to their size"""
 
@@ -547,6 +585,10 @@ class Randomizer(RandIF):
         for f in field_model_l:
             f.set_used_rand(True, 0)
             clear_soft_priority.clear(f)
+
+        # Fields the constraints mention without being part of this
+        # call keep their values: they are constants for the solver
+        OutsideFieldVisitor().mark(field_model_l, constraint_l if constraint_l is not None else [])
            
         if debug > 0: 
             print("Initial Model:")        
